@@ -82,7 +82,7 @@ def oracle(case, out):
 
 
 FLOAT_EXACT = ("EnforceGCContent", "AvoidPattern", "AvoidChanges", "EnforceChanges", "CountLetter", "CountLetterCapped",
-               "EnforcePatternOccurence", "UniquifyAllKmers", "AvoidHairpins")
+               "EnforcePatternOccurence", "UniquifyAllKmers", "AvoidHairpins", "EnforceTranslation", "EnforceSequence", "AvoidStopCodons")
 
 
 def coq_case(case, out):
